@@ -574,8 +574,106 @@ func stripNumbers(s string) string {
 	return sb.String()
 }
 
+// c04TypeChurn: several clients change the type of one column of ONE measurement at
+// the same time while flushes are slowed down, so that schema-change flushes overlap
+// with writes of a third schema. Every acknowledged row must be stored, the process
+// and its flush goroutines must survive.
+func c04TypeChurn(c *vlib.Ctx, a *Arc, g *c04gen, id int) bool {
+	a.SetCtl("ingest.flush.before_write sleep 25\n")
+	type sentRow struct {
+		rid int64
+		v   any
+	}
+	var mu sync.Mutex
+	var acked []sentRow
+	var wg sync.WaitGroup
+	ridBase := g.nextRids(1)[0] >> 20
+	for cl := 0; cl < 6; cl++ {
+		wg.Add(1)
+		go func(cl int) {
+			defer wg.Done()
+			for i := 0; i < 30; i++ {
+				n := ridBase*1000 + int64(cl)*100 + int64(i) + 500000000
+				h := uint64(n) * 0x9E3779B97F4A7C15
+				rid := n<<20 | int64(h>>44)
+				var v any
+				switch (cl + i/3) % 4 {
+				case 0:
+					v = int64(i)
+				case 1:
+					v = float64(i) + 0.5
+				case 2:
+					v = fmt.Sprintf("s%d", i)
+				default:
+					v = i%2 == 0
+				}
+				b, _ := msgpack.Marshal(map[string]any{"m": "c04churn", "columns": map[string]any{
+					"time": []any{int64(1_700_000_000_000_000) + int64(i)*1_000_000}, "rid": []any{rid}, "v": []any{v}}})
+				code, _, err := a.Post("/api/v1/write/msgpack", map[string]string{"x-arc-database": "c04db"}, b)
+				c.Count("requests", 1)
+				if err == nil && code >= 200 && code < 300 {
+					mu.Lock()
+					acked = append(acked, sentRow{rid, v})
+					mu.Unlock()
+				}
+			}
+		}(cl)
+	}
+	wg.Wait()
+	a.SetCtl("")
+	if a.Running() {
+		a.Post("/api/v1/write/line-protocol/flush", nil, nil)
+		time.Sleep(900 * time.Millisecond)
+		a.Post("/api/v1/write/line-protocol/flush", nil, nil)
+		time.Sleep(300 * time.Millisecond)
+	}
+	c.Eval()
+	c.Count("type_churn_rounds", 1)
+	c.Count("type_churn_rows_acked", int64(len(acked)))
+	c.Nontrivial(fmt.Sprintf("type-churn/%d/%d", id, len(acked)))
+	code, _, err := a.Get("/health")
+	signs := a.CrashSigns()
+	if !a.Running() || err != nil || code != 200 || len(signs) > 0 {
+		sig := "server crashed or panicked while concurrent clients changed a column's type"
+		for _, s := range signs {
+			if strings.Contains(s, "panic:") || strings.Contains(s, "fatal error:") {
+				msg := strings.TrimSpace(s[strings.Index(s, ":")+1:])
+				if len(msg) > 90 {
+					msg = msg[:90]
+				}
+				sig = "concurrent type change: " + stripNumbers(msg)
+				break
+			}
+		}
+		c.Violation(sig, map[string]any{"signs": signs, "acked_rows": len(acked), "log_tail": a.LogTail(a.runs, 40)})
+		return a.Running() && err == nil && code == 200
+	}
+	files, rerr := vpqTree(a.DataRoot())
+	if rerr != nil {
+		c.Violation("stored Parquet file unreadable after concurrent type changes", map[string]any{"err": rerr.Error()})
+		return true
+	}
+	lost, wrong := 0, 0
+	for _, r := range acked {
+		row := files[r.rid]
+		c.Count("accepted_rows_checked", 1)
+		if row == nil {
+			lost++
+		} else if !looseEqual(r.v, row["v"]) {
+			wrong++
+		}
+	}
+	if lost > 0 {
+		c.Violation("accepted request's row not stored: concurrent type changes of one column", map[string]any{"lost": lost, "acked": len(acked)})
+	}
+	if wrong > 0 {
+		c.Violation("accepted request: type-changing column neither stored correctly nor rejected (concurrent clients)", map[string]any{"wrong": wrong, "acked": len(acked)})
+	}
+	return true
+}
+
 func checkC04(c *vlib.Ctx) {
-	c.Rule("sequences of 5-40 hostile requests against ONE real arc process with small buffers (so that flushes merge batches of different requests): structure-aware MessagePack columnar/row/batch payloads with column names \"\", _x, time, measurement, unicode, 300-byte names, the same column sent with different types in consecutive requests, exotic value types (uint64 max, NaN, nested arrays/maps, bin), nil/non-string measurement, length mismatches; line protocol with odd field names/values; CSV imports with empty/duplicate/underscore headers and ragged rows; random bytes to every write/import/TLE endpoint; truncation, bit flips, doubled bodies, gzip/zstd wrappers incl. truncated streams and a 24 MB gzip bomb. After each sequence: flush, health probe, log scan for panic/fatal, Parquet read-back. non-trivial = distinct (request class, response class) pairs")
+	c.Rule("sequences of 5-40 hostile requests against ONE real arc process with small buffers (so that flushes merge batches of different requests): structure-aware MessagePack columnar/row/batch payloads with column names \"\", _x, time, measurement, unicode, 300-byte names, the same column sent with different types in consecutive requests, exotic value types (uint64 max, NaN, nested arrays/maps, bin), nil/non-string measurement, length mismatches; line protocol with odd field names/values; CSV imports with empty/duplicate/underscore headers and ragged rows; random bytes to every write/import/TLE endpoint; truncation, bit flips, doubled bodies, gzip/zstd wrappers incl. truncated streams and a 24 MB gzip bomb; plus, once per server, 6 concurrent clients changing the type of one column of one measurement while flushes are slowed by a failpoint. After each sequence: flush, health probe, log scan for panic/fatal, Parquet read-back. non-trivial = distinct (request class, response class) pairs")
 	c.Assume("every payload carries unique rid values so that 'rejected => nothing stored' and 'accepted => stored' are set comparisons")
 	c.Assume("'stored correctly' is judged per sent column value with loose numeric/string equality (int 5 = float 5.0 = \"5\"): a column that arc accepts but silently drops or alters is a violation")
 	nSeq := c.N(200, 4000)
@@ -601,6 +699,11 @@ func checkC04(c *vlib.Ctx) {
 						return
 					}
 					c.Count("server_starts", 1)
+					if !c04TypeChurn(c, a, g, s0) {
+						a.Remove()
+						a = nil
+						continue
+					}
 				}
 				alive := runC04Sequence(c, a, g, 5+rng.IntN(36), s)
 				c.Count("sequences", 1)
